@@ -481,8 +481,8 @@ func shiftCountOK(t string, b int64) bool {
 }
 
 func checkC04(c *Ctx) {
-	c.Rule = "cases = (type in int8,uint8,int32,uint32) x (16 binary/comparison operators, ++, --, unary -, ^, conversions, constant adoption) x syntactic position (var op var, result assigned, x op= y on local/global/field/slice element/map element, var op const, const op var, x op= const, ++/-- on local/global/field/element/in loop, typed declaration/parameter/result/field/element with constant) x operands (8-bit: all 65536 pairs for var-op-var, all 256 values elsewhere; 32-bit: boundary + seeded random values); distinct_nontrivial = distinct (type, op, position, a, b) evaluations whose operands are not both in {0,1}"
-	c.Assumptions = []string{"TLC evaluates FixedWidth.tla as written (32-bit arithmetic on limbs)", "native Go integer types calibrate the spec on every var-op-var table", "float64 arithmetic is not covered by this check (see DESIGN.md section 7)", "shift counts are non-negative values of the operand type; constant<<variable is outside the table"}
+	c.Rule = "integer cases = (type in int8,uint8,int32,uint32) x (16 binary/comparison operators, ++, --, unary -, ^, conversions, constant adoption) x syntactic position (var op var, result assigned, x op= y on local/global/field/slice element/map element, var op const, const op var, x op= const, ++/-- on local/global/field/element/in loop, typed declaration/parameter/result/field/element with constant) x operands (8-bit: all 65536 pairs for var-op-var, all 256 values elsewhere; 32-bit: boundary + seeded random values); float64 cases = (+ - * /, 6 comparisons, op=, ++, --, unary -, conversions to and from the four integer types, constant adoption incl. integer constant expressions) x the same syntactic positions x (40 / 100 exact dyadic operands incl. -0, +-Inf, NaN, all pairs for var-op-var); distinct_nontrivial = distinct (type, op, position, a, b) evaluations whose operands are not both in {0,1}"
+	c.Assumptions = []string{"TLC evaluates FixedWidth.tla as written (32-bit arithmetic on limbs)", "native Go integer types calibrate the spec on every var-op-var table", "float64 is covered on operands where IEEE-754 arithmetic is exact (m * 2^e with |m| < 2^15, e in -6..5, and -0, +-Inf, NaN; divisions only where the quotient is exact); rounding of inexact results is not covered (TLA+ has no floating point; see DESIGN.md section 7)", "shift counts are non-negative values of the operand type; constant<<variable is outside the table"}
 
 	// M1 runs concurrently with the table construction (it is a single-threaded constant evaluation)
 	mcDone := make(chan any, 1)
@@ -683,6 +683,7 @@ func checkC04(c *Ctx) {
 		fatalf("negative control (one flipped result bit) not flagged: %v", nb)
 	}
 	c.Extra["negative_control"] = "a table line with one flipped result bit was flagged by Trace_FixedWidth as expected"
+	checkC04Float(c, r)
 }
 
 func headInts(v []int64) []int64 {
